@@ -306,8 +306,13 @@ def run_cli(args, stdin_text=None, cwd=None):
         root.removeHandler(handler)
     old_level = root.level
     old_cwd = os.getcwd()
-    if cwd is not None:
-        os.chdir(cwd)
+    # never run the tool with the check's own directory as working directory: whatever a (changed) tempren writes
+    # relative to its cwd must land in scratch space
+    neutral = None
+    if cwd is None:
+        neutral = tempfile.mkdtemp(prefix="tvc_", dir=scratch_root())
+        cwd = neutral
+    os.chdir(cwd)
     try:
         with contextlib.redirect_stdout(out), contextlib.redirect_stderr(err):
             try:
@@ -322,8 +327,15 @@ def run_cli(args, stdin_text=None, cwd=None):
         for handler in list(root.handlers):
             root.removeHandler(handler)
         root.setLevel(old_level)
-        cwd_after = os.getcwd()
+        try:
+            cwd_after = os.getcwd()
+        except OSError:
+            cwd_after = None
         os.chdir(old_cwd)
+        if neutral is not None:
+            if cwd_after == neutral:
+                cwd_after = old_cwd        # (callers compare with the directory they started from)
+            shutil.rmtree(neutral, ignore_errors=True)
     if isinstance(rc, int):
         rc = int(rc)
     run_cli.last_cwd_after = cwd_after
